@@ -131,6 +131,14 @@ def gen_program_a(rng: random.Random, sg: SeqGen) -> dict[str, Any]:
             if a in ("raise", "finish", "emit_finish") or st.get("raise_after"):
                 break
         m["steps"] = steps
+        if kind == "exchange" and len(steps) >= 2 and all(st["act"] == "emit" and not st.get("raise_after") for st in steps[:-1]) and rng.random() < 0.5:
+            # the client sends, after k good turns, an input whose field set the method does not accept: that turn is
+            # refused before the step runs, so nothing new is logged - and nothing already delivered may come again
+            m["bad_input_at"] = rng.randint(1, len(steps) - 1)
+            # declared input column n: int32; the client sends it as int64 (coerced turn by turn), and on the bad turn
+            # a value that does not fit: the refusal happens on the server, after the request was accepted on the wire
+            m["in_cols"] = ["n", "s"]
+            m["out_cols"] = ["n", "s"]
         methods.append(m)
     return {"name": "LogSvc", "methods": methods, "calls": []}
 
@@ -174,6 +182,9 @@ def expected_events(m: dict[str, Any], n_inputs: int) -> list[tuple[Any, ...]]:
         ev.append(("end",))  # scripted steps exhausted: svcgen finishes
         return ev
     for k in range(n_inputs):
+        if m.get("bad_input_at") == k:
+            ev.append(("error",))
+            return ev
         st = steps[min(k, len(steps) - 1)]
         ev += [("log", seq_of(lg), "step", st["act"]) for lg in st["logs"]]
         if st.get("raise_after"):
@@ -326,7 +337,17 @@ def run_shard(job: dict[str, Any]) -> dict[str, Any]:
             else:
                 sess = fn()
                 schema = svcgen.schema_of(m["in_cols"])
+                if m.get("bad_input_at") is not None:
+                    schema = pa.schema([pa.field("n", pa.int64()), pa.field("s", pa.string())])
                 for k in range(n_inputs):
+                    if m.get("bad_input_at") is not None:
+                        bad = m["bad_input_at"] == k
+                        if bad:
+                            chk.hit("a_bad_input_sent")
+                        ab = sess.exchange(AnnotatedBatch(batch=pa.RecordBatch.from_pydict({"n": [2**40 if bad else k], "s": ["in"]}, schema=schema)))
+                        events.append(("data",))
+                        ab.release()
+                        continue
                     ab = sess.exchange(AnnotatedBatch(batch=pa.RecordBatch.from_pydict({"i": [k], "s": ["in"]}, schema=schema)))
                     events.append(("data",))
                     ab.release()
@@ -488,6 +509,8 @@ def run_shard(job: dict[str, Any]) -> dict[str, Any]:
                 for m in program["methods"]:
                     # never more inputs than scripted steps: svcgen repeats the last step, which would re-emit its logs
                     n_inputs = rng.randint(0, len(m["steps"])) if m["kind"] == "exchange" else 0
+                    if m.get("bad_input_at") is not None and rng.random() < 0.8:
+                        n_inputs = m["bad_input_at"] + 1
                     if tr == "http_cap" and m["kind"] != "producer":
                         continue  # the cap is a hard limit for unary / exchange responses (C16); only producers continue
                     events: list[Any] = []
@@ -736,6 +759,7 @@ def run_shard(job: dict[str, Any]) -> dict[str, Any]:
 def main(tier: str, seed: int) -> int:
     chk = Check(PID, tier, seed, level=CATEGORY, rule=RULE)
     chk.require(
+        "a_bad_input_sent",
         "emitted_log_judged",
         "position_judged",
         "content_judged",
